@@ -296,6 +296,93 @@ theorem mapGroup_passes (inner : σ → List Item → Step σ Item) : Passes (ma
       simp only [hg, Option.isSome_some, Bool.true_and] at h
       simp [hg, h]
 
+/-! ### the guards of the code coincide with the documented selection rules
+
+`toCSVSel`, `isWritable`, `isCsv`, `pngSel`, `pdfSel`, `histToGraphSel`, `mapGroupSel` are transcribed from the tests
+in the loops; `toCSVDoc`, `writeDoc`, … (Model) are written from the docstrings over `docGet`.  With these
+equalities the `…_passes` theorems say: what the *documentation* calls not selected passes. -/
+
+theorem docGet_eq_getRec : ∀ (ks : List String) (d : Dict), ks ≠ [] → docGet (.dict d) ks = getRec d ks
+  | [], _, h => absurd rfl h
+  | [k], d, _ => by
+    simp only [docGet, getRec]
+    cases lookup d k <;> simp [docGet]
+  | k :: k' :: r, d, _ => by
+    simp only [docGet, getRec]
+    cases hl : lookup d k with
+    | none => rfl
+    | some w =>
+      cases w with
+      | dict d' => simpa using docGet_eq_getRec (k' :: r) d' (by simp)
+      | _ => simp [docGet]
+
+theorem toCSVSel_eq_doc (v : Item) : toCSVSel v = toCSVDoc v := by
+  unfold toCSVSel toCSVDoc csvAllowed notDisabled
+  rw [docGet_eq_getRec _ _ (by simp)]
+  congr 1
+  cases v.data with
+  | rows id k upd => cases k <;> rfl
+  | _ => rfl
+
+theorem writeSel_eq_doc (v : Item) : writeSel v = writeDoc v := by
+  unfold writeSel isWritable writeDoc
+  rw [docGet_eq_getRec _ _ (by simp)]
+  cases hg : getRec v.dict ["output", "write"] with
+  | none => cases v.data <;> rfl
+  | some x =>
+    cases x with
+    | bool b => cases b <;> cases v.data <;> rfl
+    | _ => cases v.data <;> rfl
+
+theorem isCsv_eq_doc (v : Item) : isCsv v = renderDoc v := by
+  unfold isCsv renderDoc hasStrAt
+  rw [docGet_eq_getRec _ _ (by simp)]
+
+theorem pngSel_eq_doc (v : Item) : pngSel v = pngDoc v := by
+  unfold pngSel pngDoc hasStrAt
+  rw [docGet_eq_getRec _ _ (by simp)]
+
+theorem pdfSel_eq_doc (v : Item) : pdfSel v = pdfDoc v := by
+  unfold pdfSel pdfDoc hasStrAt
+  rw [docGet_eq_getRec _ _ (by simp)]
+
+theorem histToGraphSel_eq_doc (v : Item) : histToGraphSel v = histToGraphDoc v := by
+  unfold histToGraphSel histToGraphDoc graphAllowed notDisabled
+  rw [docGet_eq_getRec _ _ (by simp)]
+  cases v.data <;> rfl
+
+theorem mapGroupSel_eq_doc (v : Item) : mapGroupSel v = mapGroupDoc v := by
+  unfold mapGroupSel mapGroupDoc hasKey
+  rw [docGet_eq_getRec _ _ (by simp)]
+  rfl
+
+/-- **`ToCSV` passes what its documentation does not call convertible** -/
+theorem toCSV_passes_doc (cfg : CsvCfg) : Passes (toCSVStep (σ := σ) cfg) toCSVDoc := by
+  intro s v h; exact toCSV_passes cfg s v (by rw [toCSVSel_eq_doc]; exact h)
+
+/-- **`Write` passes what its documentation says is not written** -/
+theorem write_passes_doc (cfg : WriteCfg) : Passes (writeStep cfg) writeDoc := by
+  intro s v h; exact write_passes cfg s v (by rw [writeSel_eq_doc]; exact h)
+
+/-- **`RenderLaTeX` (default `select_data`) passes values whose `context.output.filetype` is not `"csv"`** -/
+theorem render_passes_doc (cfg : RenderCfg) (hd : cfg.selectData = none) :
+    Passes (renderStep (σ := σ) cfg) renderDoc := by
+  intro s v h
+  apply render_passes cfg s v
+  simp only [renderSel, hd, isCsv_eq_doc]; exact h
+
+/-- **`PDFToPNG` passes values whose `context.output.filetype` is not `"pdf"`** -/
+theorem png_passes_doc (cfg : PngCfg) : Passes (pngStep cfg) pngDoc := by
+  intro s v h; exact png_passes cfg s v (by rw [pngSel_eq_doc]; exact h)
+
+/-- **`HistToGraph` passes non-histograms and histograms with `context.histogram.to_graph` false** -/
+theorem histToGraph_passes_doc (cfg : H2GCfg) : Passes (histToGraphStep (σ := σ) cfg) histToGraphDoc := by
+  intro s v h; exact histToGraph_passes cfg s v (by rw [histToGraphSel_eq_doc]; exact h)
+
+/-- **`MapGroup(map_scalars=False)` passes what is not a group** -/
+theorem mapGroup_passes_doc (inner : σ → List Item → Step σ Item) : Passes (mapGroupStep inner) mapGroupDoc := by
+  intro s v h; exact mapGroup_passes inner s v (by rw [mapGroupSel_eq_doc]; exact h)
+
 /-! ### the law for each element's `run` -/
 
 /-- `ToCSV.run(interleave(A, B)) = interleave(ToCSV.run(A), B)` -/
